@@ -63,13 +63,21 @@ fn random_regular(rng: &mut Rng) -> (Instruction, Vec<u8>)
 			b.extend_from_slice(&h1.to_le_bytes());
 			b
 		}
+		else if rng.chance(1, 12)
+		{
+			// valid NON-canonical encodings: ADDS/SUBS Rd, Rd, #imm3 in the three-operand form (the assembler emits the imm8 form)
+			let d = rng.below(8) as u16;
+			(0x1C00u16 | ((rng.below(2) as u16) << 9) | ((rng.below(8) as u16) << 6) | (d << 3) | d).to_le_bytes().to_vec()
+		}
 		else {(rng.next() as u16).to_le_bytes().to_vec()};
 		let Some((n, i)) = dec(&bytes) else {continue};
 		if n != bytes.len() {continue;}
 		if pc_relative_data(&i) || matches!(i, Instruction::B{..} | Instruction::Bl{..}) || !i.get_returns() {continue;}
 		match enc(&i)
 		{
-			Some(e) if e == bytes => return (i, e),
+			// the property quantifies over every binary of valid instructions: alias encodings (same length, decode to the
+			// same instruction) are valid instructions too
+			Some(e) if e.len() == bytes.len() => return (i, bytes),
 			_ => continue,
 		}
 	}
@@ -485,7 +493,26 @@ fn check_one(cx: &mut Cx, bin: &[u8], reply: &str, serial: u64)
 					}
 					match bad
 					{
-						Some(w) => cx.report.oracle_fail(input, format!("re-assembled image differs: {w}")),
+						Some(w) =>
+						{
+							// is every differing byte inside an instruction given in a non-canonical (alias) encoding, re-assembled
+							// to the canonical encoding of the same instruction?  (known finding K3; anything else is reported as is)
+							let mut canon = Vec::new();
+							let mut aliases = 0;
+							for (off, len, i) in &sh.instrs
+							{
+								let orig = &bin[*off as usize..*off as usize + *len];
+								match enc(i) {Some(e) if e.len() == *len => {if e != orig {aliases += 1;} canon.extend_from_slice(&e)}, _ => canon.extend_from_slice(orig)}
+							}
+							let only_alias = aliases > 0 && canon.len() == bin.len() && canon.iter().enumerate().all(|(k, b)| image.get(&(BASE + k as u32)) == Some(b))
+								&& image.iter().all(|(a, b)| *a >= BASE && *a < end && (*a < BASE + bin.len() as u32 || *b == 0));
+							if only_alias
+							{
+								cx.report.hit("round trip differs only by alias re-encoding (K3)");
+								cx.report.oracle_fail(format!("alias:{}", hex(bin)), format!("{aliases} instruction(s) given in the three-operand ADDS/SUBS Rd, Rd, #imm3 encoding are re-assembled to the imm8 encoding: {w}"));
+							}
+							else {cx.report.oracle_fail(input, format!("re-assembled image differs: {w}"));}
+						},
 						None => cx.report.hit("round trip ok"),
 					}
 				},
@@ -500,7 +527,7 @@ pub fn run(_id: &str, cx: &mut Cx)
 Each: real tridas -> listing -> real trias -> UF2 -> independent reader. non-trivial = every case; distinct = distinct listing structures".to_owned();
 	if let Some(input) = cx.replay.clone()
 	{
-		match unhex(&input)
+		match unhex(input.strip_prefix("alias:").unwrap_or(&input))
 		{
 			Some(bin) =>
 			{
@@ -515,7 +542,7 @@ Each: real tridas -> listing -> real trias -> UF2 -> independent reader. non-tri
 	let max_n = if cx.thorough() {150} else {40};
 	let mut bins: Vec<Vec<u8>> = Vec::new();
 	// fixed small cases: single terminal, self branch, backward loop, BL forward
-	for h in ["7047", "fee7", "00bf fde7", "00f001f8 7047 7047", "00d0 00bf 7047", "00bd"]
+	for h in ["7047", "fee7", "00bf fde7", "00f001f8 7047 7047", "00d0 00bf 7047", "00bd", "401c 7047", "521e 7047"]
 	{
 		bins.push(unhex(&h.replace(' ', "")).unwrap());
 	}
